@@ -283,6 +283,8 @@ def brute_matches(mol, bf):
 
     def node_ok(p, t):
         pa, ta = bf.nodes[p], mol.nodes[t]
+        if bf.has_edge(p, p) != mol.has_edge(t, t):      # induced: a self-loop is matched by a self-loop only
+            return False
         for k, v in pa.items():
             if k in IGNORE:
                 continue
@@ -559,6 +561,11 @@ def gen_ff(rng, feat):
                 edges.append(e)
         for i in range(nh):
             edges.append((names[rng.randrange(nheavy)], names[nheavy + i]))
+        if rng.random() < feat.get('p_selfloop', 0.0):
+            # a self-loop on an atom (block_from carries it too): semantic_feasibility then has to judge the
+            # loop itself with edge_matcher
+            n = names[rng.randrange(nheavy)]
+            edges.append((n, n))
         types.append({'resname': resname, 'names': names, 'nheavy': nheavy, 'edges': edges})
     nrexcl = rng.choice([None, 1, 1, 3])
     mappings = []
@@ -727,6 +734,8 @@ def gen_molecule(rng, types, link, nres_max):
                      'element': 'H' if n.startswith('H') else 'C'}
             atoms.append([k, attrs])
         for a, b in ty['edges']:
+            if a == b and rng.random() < 0.3:
+                continue                                # this residue lacks the self-loop of its type
             edges.append([local[a], local[b]])
         res_atoms.append((t, ty, local))
         resid += rng.choice([1, 1, 1, 2, 7])
@@ -794,7 +803,7 @@ def finding_of(clauses, spec):
 # ----------------------------------------------------------------------------
 # main loop
 # ----------------------------------------------------------------------------
-FEAT = {'p_unmapped': 0.08, 'p_empty': 0.03, 'p_spawn': 0.3, 'p_ref': 0.2, 'p_dup': 0.2, 'p_both_empty': 0.6, 'p_two': 0.35,
+FEAT = {'p_selfloop': 0.04, 'p_unmapped': 0.08, 'p_empty': 0.03, 'p_spawn': 0.3, 'p_ref': 0.2, 'p_dup': 0.2, 'p_both_empty': 0.6, 'p_two': 0.35,
         'p_nrexcl': 0.02}
 cases = []
 corpus_file = os.path.join(VERIF, 'corpus', 'c01_hard.json')
@@ -853,7 +862,9 @@ for (cid, spec, meta, status, impl, errs, info, logs, ln), sent, mo in zip(recs,
                        ('first_matched_atom_not_lowest_key', info.get('first_not_min')), ('overlap', info.get('overlap')), ('overlap_noncontributing_atom', info.get('overlap_noncontributing')), ('spawned', info.get('spawned')), ('lost_atoms', info.get('lost')),
                        ('inter_bonds', info.get('inter_bonds')), ('warn_garbage', kinds[1]), ('warn_disconnected', kinds[2]),
                        ('warn_hydrogens', kinds[4]), ('two_residue_mapping', any(m['name'] == 'PAIR' for m in spec['mappings'])),
-                       ('references', any(m['refs'] for m in spec['mappings'])), ('unexpected_log', other)):
+                       ('references', any(m['refs'] for m in spec['mappings'])), ('unexpected_log', other),
+                       ('self_loop_in_molecule', any(a == b for a, b in spec['edges'])),
+                       ('self_loop_in_block_from', any(a == b for m in spec['mappings'] for a, b in m['from_edges']))):
         if flag:
             chk.count('feature_' + name)
     fid = finding_of(errs, spec) if errs else None
@@ -1649,7 +1660,9 @@ def real_ff_cases():
         for mi, mol in enumerate(system.molecules):
             status, out, rawb, rawm, logs, blocks, mods, called = run_with_mods(
                 mol, maps, ffs['martini3001'], keep=('cgsecstruct', 'chain', 'secstruct'))
+            logargs = list(LOGARGS)
             ln = None
+            lnx = implx = None
             if len(rawb) <= 45:
                 used_b = sorted({i for i, _ in rawb})
                 used_m = sorted({i for i, _ in rawm})
@@ -1658,8 +1671,18 @@ def real_ff_cases():
                 maps_enc, rawb_enc = enc_block_maps(bsel, [(used_b.index(i), mt) for i, mt in rawb])
                 mods_enc, rawm_enc = enc_mod_maps(msel, [(used_m.index(i), mt) for i, mt in rawm])
                 ln = line('mapmod', enc_atoms(mol), [list(e) for e in mol.edges], maps_enc, rawb_enc, mods_enc, rawm_enc)
+                # the same run through the attribute model: every attribute of every particle
+                cfgx = (('cgsecstruct', 'chain', 'secstruct'), MUST, STASH)
+                rb = [(used_b.index(i), mt) for i, mt in rawb]
+                rm = [(used_m.index(i), mt) for i, mt in rawm]
+                lnx = proto_mapx(cfgx, mol, bsel, rb, msel, rm, ffs['martini3001'])
+                implx = canon_x(status, out, logs, logargs, msel)
+                if status == 'ok':
+                    npre = sum(len(bsel[i].block_to) for i, _ in rb) + sum(
+                        sum(1 for _, a in msel[i].block_to.nodes(data=True) if a.get('PTM_atom')) for i, _ in rm)
+                    implx += canon_x_tail(out, npre)
             yield ('%s-%s-mol%d' % (path.parent.parent.name, path.parent.name, mi), mol, out, rawb, logs, ln,
-                   canon_real(status, out, logs), sorted(set(called)), mods, rawm)
+                   canon_real(status, out, logs), sorted(set(called)), mods, rawm, lnx, implx)
 
 
 def real_ff_oracle(mol, out, raw, logs):
@@ -1709,7 +1732,11 @@ def real_ff_oracle(mol, out, raw, logs):
 
 if chk.thorough or os.environ.get('C01_REALFF'):
     rl, rr = [], []
-    for cid, mol, out, raw, logs, ln, impl, called, mods, rawm in real_ff_cases():
+    rlx, rrx = [], []
+    for cid, mol, out, raw, logs, ln, impl, called, mods, rawm, lnx, implx in real_ff_cases():
+        if lnx is not None:
+            rlx.append(lnx)
+            rrx.append((cid, implx, len(rawm)))
         errs, inter = real_ff_oracle(mol, out, raw, logs)
         errs += ['%s: %s' % e for e in mod_oracle(mol, out, logs, mods, rawm)]
         chk.count('real_ff_molecules')
@@ -1725,5 +1752,9 @@ if chk.thorough or os.environ.get('C01_REALFF'):
     for (cid, impl, nm), ln, mo in zip(rr, rl, rmodels):
         chk.count('real_ff_model_compared')
         chk.case('realff-model-' + cid, ln, impl, mo, [], nm >= 1)
+    rxmodels = chk.drv.ask(rlx) if chk.lean_ok else [None] * len(rlx)
+    for (cid, impl, nm), ln, mo in zip(rrx, rlx, rxmodels):
+        chk.count('real_ff_attribute_model_compared')
+        chk.case('realff-attr-model-' + cid, ln, impl, mo, [], True)
 
 chk.finish()
